@@ -20,21 +20,14 @@ def Complete_full : Prop :=
 /-- **C02 (completeness).** A conforming value is accepted. -/
 theorem complete_partial (env : Env) (orc : Nat → Val → Raw) (hw : WfEnv env) (a : Ann) (v : Val)
     (hok : a.okC env = true ∨ a = .none) (hwf : v.wf env = true) (hp : v.plain = true) :
-    conforms env a v = true → checkType env orc a v = .accept := by
-  intro h
-  rcases hok with hok | rfl
-  · have := (exact_raw env orc hw).1 false a v hok hwf hp
-    cases a <;> simp_all [checkType, wrap, Ann.okC]
-  · simpa [checkType, conforms] using h
+    conforms env a v = true → checkType env orc a v = .accept :=
+  complete_checkType env orc hw a v hok hwf hp
 
 /-- the verdict is a verdict: on the guarded vocabulary the checker answers accept or reject, exactly as the spec says -/
 theorem verdict_exact (env : Env) (orc : Nat → Val → Raw) (hw : WfEnv env) (a : Ann) (v : Val)
     (hok : a.okC env = true ∨ a = .none) (hwf : v.wf env = true) (hp : v.plain = true) :
-    checkType env orc a v = if conforms env a v then .accept else .reject := by
-  rcases hok with hok | rfl
-  · have := (exact_raw env orc hw).1 false a v hok hwf hp
-    cases a <;> simp_all [checkType, Ann.okC, wrap_ok]
-  · cases h : v.isNone <;> simp [checkType, conforms, h]
+    checkType env orc a v = if conforms env a v then .accept else .reject :=
+  exact_checkType env orc hw a v hok hwf hp
 
 /-! ### spelling independence -/
 
